@@ -1,0 +1,31 @@
+//go:build verif
+
+package build
+
+// Further exports for the verification harness in /verif (build tag "verif" only).
+// Add-only: nothing here is referenced by the build package itself.
+
+import (
+	"go/ast"
+	"go/token"
+
+	"github.com/gopherjs/gopherjs/build/cache"
+)
+
+// VerifSetBuildCache installs c as the session's source cache (the default
+// cache is disabled by a constant in NewSession).
+func (s *Session) VerifSetBuildCache(c cache.Cache) { s.buildCache = c }
+
+// VerifParseStd parses the original files and the overlay files of the
+// standard-library package importPath exactly as parseAndAugment does, without
+// merging them.
+func VerifParseStd(importPath string, fileSet *token.FileSet) (originals, overlays []*ast.File, err error) {
+	xctx := NewBuildContext("", nil)
+	pkg, err := xctx.Import(importPath, "", 0)
+	if err != nil {
+		return nil, nil, err
+	}
+	_, overlays = parseOverlayFiles(xctx, pkg, false, fileSet)
+	originals, err = parserOriginalFiles(pkg, fileSet)
+	return originals, overlays, err
+}
